@@ -269,3 +269,19 @@ func (e *Env) Simple(text string, cols []string) (rows [][]qm.Val, err error) {
 	}
 	return rows, nil
 }
+
+// Classify computes the known-finding class a failing query belongs to (""
+// if none); see qm/classify.go for the classes. The whole-row class uses the
+// implementation's own flag on the parsed tree to recognise the special case.
+func (e *Env) Classify(q *qm.Q) string {
+	if e.Model.NameClash(q) {
+		return qm.ClassSumNameClash
+	}
+	if e.Model.ProjectToMinMax(q) {
+		return qm.ClassWholeRowBelow
+	}
+	if pq, err := e.ParseOnly(q.Text()); err == nil && qry.VerifWholeRowBelow(pq) {
+		return qm.ClassWholeRowBelow
+	}
+	return ""
+}
